@@ -190,6 +190,8 @@ def sse_dir():
 def wipe_sse():
     """fresh disk for a run (the log directory is kept: the repo's loggers hold files there)"""
     root = sse_dir()
+    os.makedirs(os.path.join(root, "client"), exist_ok=True)  # (a run may have removed it)
+    os.makedirs(os.path.join(root, "log"), exist_ok=True)
     for name in os.listdir(root):
         p = os.path.join(root, name)
         if name == "log":
